@@ -25,15 +25,21 @@ type c09Store struct {
 	// zeroCopy: for a run of consecutive indexes the reader hands out a sub-slice of its own array
 	// instead of a copy (legal for a HashReader; a caller must not write into what it is given)
 	zeroCopy bool
-	hashes  []tlog.Hash
-	fault   int // 0 none, 1 error, 2 short, 3 long
-	fired   bool
-	reads   int
-	virtual *ref.Tree // if set, reads are served from a virtual uniform tree instead
+	hashes   []tlog.Hash
+	fault    int // 0 none, 1 error, 2 short, 3 long
+	fired    bool
+	reads    int
+	virtual  *ref.Tree // if set, reads are served from a virtual uniform tree instead
+	// hook, if set, runs while the read is "in flight" (the caller is parked inside ReadHashes):
+	// the interleaving seam of c09Interleave
+	hook func(idx []int64)
 }
 
 func (s *c09Store) ReadHashes(idx []int64) ([]tlog.Hash, error) {
 	s.reads++
+	if s.hook != nil {
+		s.hook(idx)
+	}
 	if s.zeroCopy && s.virtual == nil && s.fault == 0 && len(idx) > 0 {
 		consecutive := idx[0] >= 0 && idx[len(idx)-1] < int64(len(s.hashes))
 		for i := 1; i < len(idx); i++ {
@@ -361,6 +367,173 @@ func c09Explore(src *choice.Src) *core.Result {
 	return res
 }
 
+// c09Interleave: several logs live in one process and their appends and tree-hash reads interleave at the
+// only point where a caller can be suspended, the HashReader seam: while one log's operation is parked
+// inside ReadHashes, the tape decides which whole operations of the other logs (and tree-hash reads of the
+// same log) run before the read returns. Some reads fail. Every log must still be exactly its own
+// RFC 6962 tree; an index list handed to a reader must not change while the read is in flight.
+type c09Log struct {
+	name  string
+	st    *c09Store
+	tr    *ref.Tree
+	n     int64
+	busy  bool // an append of this log is parked in its reader
+	fails int
+}
+
+type c09Inter struct {
+	src    *choice.Src
+	res    *core.Result
+	logs   []*c09Log
+	depth  int
+	nested int
+	maxD   int
+	budget int
+}
+
+func (w *c09Inter) parked(l *c09Log, idx []int64) {
+	if w.depth >= w.maxD || w.budget <= 0 || w.res.Violation != nil || !w.src.Bool(1, 3) {
+		return
+	}
+	before := append([]int64(nil), idx...)
+	k := w.src.Range(1, 3)
+	w.depth++
+	for i := 0; i < k && w.res.Violation == nil; i++ {
+		w.nested++
+		w.step(w.logs[w.src.Intn(len(w.logs))])
+	}
+	w.depth--
+	for i := range before {
+		if i >= len(idx) || idx[i] != before[i] {
+			w.res.Fail("C09", "read-arguments-stable", "the index list handed to a HashReader changed while the read was in flight (another log's operation ran meanwhile)",
+				"log %s: reader was asked for %v; after %d operations of other logs ran during the read the same slice reads %v", l.name, before, k, idx)
+			return
+		}
+	}
+}
+
+func (w *c09Inter) step(l *c09Log) {
+	w.budget--
+	res := w.res
+	if l.busy || w.src.Bool(1, 4) {
+		// read-only operation: tree hash of a size already stored
+		if l.n == 0 {
+			return
+		}
+		m := int64(w.src.Uint64n(uint64(l.n))) + 1
+		sf := l.st.fault // a failing append of this log may be parked further up; this read is an honest one
+		l.st.fault = 0
+		th, err := tlog.TreeHash(m, l.st)
+		l.st.fault = sf
+		if err != nil || ref.Hash(th) != l.tr.MTH(m) {
+			res.Fail("C09", "tree-hash-is-mth", "TreeHash is not the RFC 6962 Merkle tree hash", "log %s (one of %d logs in the process, nesting depth %d): TreeHash(%d) = %v, %v; differs from the reference", l.name, len(w.logs), w.depth, m, th, err)
+		}
+		return
+	}
+	data := []byte(fmt.Sprintf("%s/m v1.%d.0 h1:%x\n", l.name, l.n, choice.Mix(uint64(l.n), uint64(len(l.name)))))
+	if w.src.Bool(1, 6) {
+		// a failing read first: must surface, must leave nothing behind that later operations trip over
+		l.st.fault, l.st.fired = w.src.Range(1, 3), false
+		l.busy = true
+		hs, err := tlog.StoredHashes(l.n, data, l.st)
+		l.busy = false
+		if l.st.fired {
+			res.Faults[[]string{"", "store-read-error", "store-read-short", "store-read-long"}[l.st.fault]]++
+			l.fails++
+			if err == nil {
+				res.Fail("C09", "reader-fault-surfaces", "StoredHashes succeeded although its HashReader failed or returned the wrong number of hashes",
+					"log %s record %d: store fault %d delivered, StoredHashes returned %d hashes and no error", l.name, l.n, l.st.fault, len(hs))
+			}
+		}
+		l.st.fault = 0
+		if res.Violation != nil {
+			return
+		}
+	}
+	l.busy = true
+	hs, err := tlog.StoredHashes(l.n, data, l.st)
+	l.busy = false
+	if res.Violation != nil {
+		return
+	}
+	if err != nil {
+		res.Fail("C09", "append-succeeds", "StoredHashes failed on an honest store", "log %s record %d (one of %d logs in the process, %d earlier failed reads in the process): %v", l.name, l.n, len(w.logs), w.totalFails(), err)
+		return
+	}
+	if int64(len(l.st.hashes)) != ref.StoredIndex(0, l.n) {
+		core.SetHarnessError("c09 interleave: store length out of step")
+		return
+	}
+	want := 1 + bits.TrailingZeros64(uint64(l.n+1))
+	if len(hs) != want {
+		res.Fail("C09", "stored-hashes-count", "StoredHashes returns the wrong number of hashes", "log %s record %d: %d hashes, want %d", l.name, l.n, len(hs), want)
+		return
+	}
+	l.tr.Append(data)
+	for lv := 0; lv < want; lv++ {
+		if ref.Hash(hs[lv]) != l.tr.Sub(lv, l.n>>uint(lv)) {
+			res.Fail("C09", "stored-hash-is-subtree-hash", "a stored hash is not the RFC 6962 hash of its complete subtree",
+				"log %s record %d: returned hash #%d is not the level-%d subtree hash of its own log (%d logs in the process, %d operations of other logs ran inside reads so far, %d earlier failed reads)", l.name, l.n, lv, lv, len(w.logs), w.nested, w.totalFails())
+			return
+		}
+	}
+	l.st.hashes = append(l.st.hashes, hs...)
+	l.n++
+}
+
+func (w *c09Inter) totalFails() int {
+	t := 0
+	for _, l := range w.logs {
+		t += l.fails
+	}
+	return t
+}
+
+func c09Interleave(src *choice.Src) *core.Result {
+	res := core.NewResult()
+	w := &c09Inter{src: src, res: res, maxD: src.Range(1, 3), budget: src.Range(10, 150)}
+	nl := src.Range(2, 4)
+	for i := 0; i < nl; i++ {
+		l := &c09Log{name: string(rune('A' + i)), st: &c09Store{zeroCopy: src.Bool(1, 3)}, tr: ref.NewTree()}
+		l.st.hook = func(idx []int64) { w.parked(l, idx) }
+		w.logs = append(w.logs, l)
+	}
+	res.Logf("C09 interleave: %d logs, nesting up to %d", nl, w.maxD)
+	for w.budget > 0 && res.Violation == nil {
+		w.step(w.logs[src.Intn(nl)])
+	}
+	total := int64(0)
+	reads := 0
+	for _, l := range w.logs {
+		l.st.hook = nil
+		total += l.n
+		reads += l.st.reads
+		if res.Violation != nil {
+			break
+		}
+		for p := int64(0); p < int64(len(l.st.hashes)); p++ {
+			if ref.Hash(l.st.hashes[p]) != l.tr.StoredHash(p) {
+				res.Fail("C09", "stored-hash-is-subtree-hash", "a stored hash changed after it was written", "log %s: position %d no longer holds the hash stored there", l.name, p)
+				break
+			}
+		}
+		if th, err := tlog.TreeHash(l.n, l.st); l.n > 0 && (err != nil || ref.Hash(th) != l.tr.MTH(l.n)) {
+			res.Fail("C09", "tree-hash-is-mth", "TreeHash is not the RFC 6962 Merkle tree hash", "log %s: final TreeHash(%d) = %v, %v", l.name, l.n, th, err)
+		}
+	}
+	if w.nested > 0 {
+		res.Probes["operation-ran-inside-another-logs-read"]++
+	}
+	if w.nested > 0 && w.totalFails() > 0 {
+		res.Probes["interleaved-after-failed-read"]++
+	}
+	res.Steps = reads
+	res.Sig = choice.Mix(uint64(nl), uint64(total), uint64(w.nested), res.Digest, choice.MixString(fmt.Sprint(res.Faults)))
+	res.Trivial = total < 2
+	res.Sample = map[string]interface{}{"logs": nl, "appends": total, "operations_nested_in_reads": w.nested, "store_read_faults": res.Faults}
+	return res
+}
+
 func sampleLens(t []string) []int {
 	var out []int
 	for i, s := range t {
@@ -387,13 +560,14 @@ func refLeaf(text string) []byte {
 func init() {
 	core.Register(&core.Prop{
 		ID:      "C09",
-		Entries: []core.Entry{{Name: "explore", Run: c09Explore}},
-		Explore: []string{"explore"},
+		Entries: []core.Entry{{Name: "explore", Run: c09Explore}, {Name: "interleave", Run: c09Interleave}},
+		Explore: []string{"explore", "explore", "interleave"},
 		Rule: "explore: seeded append histories of 1-120 records (thorough up to 2000) with record texts of 1-3 lines incl. Unicode, U+FFFD and lengths around 64..4096, store reads failing at random appends; then text-encoding round trips, (level, offset) coordinates up to 2^60 records and a virtual uniform log of up to 2^44 records. " +
+			"interleave (every third run): 2-4 logs in one process; while one log's append or tree-hash read is parked inside its HashReader, the tape runs whole operations of the other logs (nested up to 3 deep), some with failing reads; every log must stay its own RFC 6962 tree and a reader's index list must not change during the read. " +
 			"Distinct = (history length, event digest); non-trivial = at least 2 appends. NOTE: the only injectable fault is the HashReader seam of StoredHashes/TreeHash; the layout laws themselves are pure relations checked against the reference.",
 		Real:        []string{"tlog.StoredHashes, StoredHashesForRecordHash, TreeHash, StoredHashIndex, SplitStoredHashIndex, StoredHashCount, RecordHash", "tlog.FormatTree/ParseTree, FormatRecord/ParseRecord, Hash.String/ParseHash/JSON"},
 		Stub:        []string{"dense hash store with failing reads", "reference RFC 6962 tree (materialised and virtual uniform)"},
 		Assumptions: []string{"SHA-256 collision resistance", "coordinates are exercised below 2^61 records so that stored positions fit in int64"},
 	})
-	core.ExpectProbes("C09", "coordinate-beyond-2^32-records", "virtual-log-above-2^32")
+	core.ExpectProbes("C09", "coordinate-beyond-2^32-records", "virtual-log-above-2^32", "operation-ran-inside-another-logs-read", "interleaved-after-failed-read")
 }
